@@ -2,22 +2,19 @@
    types_for_custom_json_translation accumulate; the header (imports, TypeVar lines, helper
    functions) is written afterwards from what accumulated.  The accumulators only grow; every
    formatter and writer inserts the import at the place where it prints the name.
-   PARTIAL (see c12_py_file_partial): proved for every name of the fixed typing / pydantic / enum /
-   datetime vocabulary spelled in a type at any depth or in the template text of a declaration, and
-   for the TypeVars of class headers; NOT yet proved: that the (de)serialiser function names of an
-   Annotated field are defined, and the header's own uses (TypeVar, datetime inside the helper
-   functions). *)
+   c12_py_file: the WHOLE file (header + body) outside the two recorded classes.  Shape of the proof:
+   a preorder c12_ple on py_state (accumulators grow; a type variable enters only with the TypeVar
+   import; the text `datetime` enters the translation set only next to the datetime import); every
+   writer w satisfies  w x s = Ok (y, s') -> c12_ple s s' /\ Q y s' /\ R x s'  where Q says that the
+   names the OUTPUT y uses are provided at s' and R says what writing the INPUT x left in s'
+   (TypeVars declared, texts registered: the spec's readers c12_py_custom / c12_py_registers); Q and
+   R survive later steps; the header is printed from the final state.  c12_py_file_partial (the
+   body without class hypothesis) is kept. *)
 From Coq Require Import List Bool Permutation.
 From TS Require Import Model.Str Model.Outcome Model.Unicode Model.Types Model.Parse Model.TopsortAlgo Model.Topsort
                        Model.Lang.Common Model.Lang.Decl Model.Lang.Python Spec.C12Spec.
 From TS Require Import Proofs.BackCommon Proofs.C12Common Proofs.C12Obs Proofs.C12_Go.
 Import ListNotations.
-
-Definition c12_ple (s s' : py_state) : Prop :=
-  incl (c12_py_imported s) (c12_py_imported s') /\ incl (py_type_variables s) (py_type_variables s').
-Lemma c12_ple_refl s : c12_ple s s. Proof. split; apply incl_refl. Qed.
-Lemma c12_ple_trans a b c : c12_ple a b -> c12_ple b c -> c12_ple a c.
-Proof. intros [A1 A2] [B1 B2]. split; eapply incl_tran; eauto. Qed.
 
 Lemma c12_py_imports_insert_in m k v x :
   In x (flat_map snd (py_imports_insert m k v)) <-> x = v \/ In x (flat_map snd m).
@@ -32,30 +29,72 @@ Qed.
 (* the names of the fixed vocabulary that a piece of output spells are imported *)
 Definition c12_py_imp (u : str) (s : py_state) : Prop := In u (c12_py_imported s).
 
-Lemma c12_py_imp_up u s s' : c12_py_imp u s -> c12_ple s s' -> c12_py_imp u s'.
-Proof. unfold c12_py_imp. intros H [L _]. apply L, H. Qed.
-
 Section PY.
 Variable uc : unicode.
 Variable cfg : py_config.
+
+(* some Rust name is mapped to the text `datetime` (excluded by c12_py_dom) *)
+Definition c12_py_maps_dt : Prop := exists k, tmap_get (py_type_mappings cfg) k = Some (lit "datetime").
+
+(* the preorder on states: the three accumulators only grow; a type variable is only ever added
+   together with the TypeVar import; `datetime` only ever enters the translation set next to the
+   datetime import (or because the configuration maps a name to the text `datetime`) *)
+Definition c12_ple (s s' : py_state) : Prop :=
+  incl (c12_py_imported s) (c12_py_imported s') /\
+  incl (py_type_variables s) (py_type_variables s') /\
+  incl (py_custom_types s) (py_custom_types s') /\
+  (forall x, In x (py_type_variables s') -> In x (py_type_variables s) \/ In (lit "TypeVar") (c12_py_imported s')) /\
+  (In (lit "datetime") (py_custom_types s') ->
+   In (lit "datetime") (py_custom_types s) \/ In (lit "datetime") (c12_py_imported s') \/ c12_py_maps_dt).
+Lemma c12_ple_refl s : c12_ple s s.
+Proof. repeat split; try apply incl_refl; auto. Qed.
+Lemma c12_ple_trans a b c : c12_ple a b -> c12_ple b c -> c12_ple a c.
+Proof.
+  intros (A1 & A2 & A3 & A4 & A5) (B1 & B2 & B3 & B4 & B5). repeat split; try (eapply incl_tran; eauto).
+  - intros x Hx. destruct (B4 x Hx) as [H|H]; [|auto]. destruct (A4 x H) as [K|K]; auto.
+  - intros H. destruct (B5 H) as [K|K]; [|auto]. destruct (A5 K) as [J|[J|J]]; auto.
+Qed.
+Lemma c12_ple_imp s s' : c12_ple s s' -> incl (c12_py_imported s) (c12_py_imported s').
+Proof. intros H. apply H. Qed.
+Lemma c12_ple_tv s s' : c12_ple s s' -> incl (py_type_variables s) (py_type_variables s').
+Proof. intros H. apply H. Qed.
+Lemma c12_ple_cu s s' : c12_ple s s' -> incl (py_custom_types s) (py_custom_types s').
+Proof. intros H. apply H. Qed.
+
+Lemma c12_py_imp_up u s s' : c12_py_imp u s -> c12_ple s s' -> c12_py_imp u s'.
+Proof. unfold c12_py_imp. intros H L. apply (c12_ple_imp _ _ L), H. Qed.
 
 Ltac c12_ret H := unfold ret in H; injection H as <- <-.
 
 Lemma c12_py_add_import_spec m i s u s' : py_add_import m i s = Ok (u, s') -> c12_ple s s' /\ c12_py_imp i s'.
 Proof.
-  unfold py_add_import, mbind, mget, mput. intros [= _ <-]. unfold c12_ple, c12_py_imp, c12_py_imported. cbn [py_imports py_type_variables].
-  split; [split; [|apply incl_refl]|]; [intros x Hx|]; apply c12_py_imports_insert_in; auto.
+  unfold py_add_import, mbind, mget, mput. intros [= _ <-]. unfold c12_ple, c12_py_imp, c12_py_imported.
+  cbn [py_imports py_type_variables py_custom_types].
+  repeat split; try apply incl_refl; auto; [intros x Hx|]; apply c12_py_imports_insert_in; auto.
 Qed.
 
-Lemma c12_py_add_custom_spec t s u s' : py_add_custom_type t s = Ok (u, s') -> c12_ple s s'.
-Proof. unfold py_add_custom_type, mbind, mget, mput. intros [= _ <-]. split; cbn; apply incl_refl. Qed.
+(* a text enters the translation set; `datetime` only where the datetime import is already there *)
+Lemma c12_py_add_custom_spec t s u s' :
+  py_add_custom_type t s = Ok (u, s') ->
+  (t = lit "datetime" -> c12_py_imp (lit "datetime") s \/ c12_py_maps_dt) ->
+  c12_ple s s' /\ In t (py_custom_types s').
+Proof.
+  unfold py_add_custom_type, mbind, mget, mput. intros [= _ <-] Hdt. unfold c12_ple, c12_py_imp, c12_py_imported in *.
+  cbn [py_imports py_type_variables py_custom_types].
+  repeat split; try apply incl_refl; auto.
+  - intros x Hx. apply c12_sset_insert_in. auto.
+  - intros H. apply c12_sset_insert_in in H as [H|H]; [|auto]. right. apply Hdt. now symmetry.
+  - apply c12_sset_insert_in. auto.
+Qed.
 
 Lemma c12_py_add_type_var_spec n s u s' :
   py_add_type_var n s = Ok (u, s') -> c12_ple s s' /\ In n (py_type_variables s').
 Proof.
-  unfold py_add_type_var. intros H. apply mbind_ok in H as (u1 & s1 & E1 & H). apply c12_py_add_import_spec in E1 as [L1 _].
+  unfold py_add_type_var. intros H. apply mbind_ok in H as (u1 & s1 & E1 & H). apply c12_py_add_import_spec in E1 as [L1 I1].
   unfold mbind, mget, mput in H. injection H as _ <-. cbn [py_type_variables]. split.
-  - eapply c12_ple_trans; [exact L1|]. split; [apply incl_refl|]. cbn [py_type_variables]. intros x Hx. apply c12_sset_insert_in. auto.
+  - eapply c12_ple_trans; [exact L1|]. unfold c12_ple, c12_py_imported. cbn [py_imports py_type_variables py_custom_types].
+    repeat split; try apply incl_refl; auto.
+    intros x Hx. apply c12_sset_insert_in. auto.
   - apply c12_sset_insert_in. auto.
 Qed.
 
@@ -66,7 +105,7 @@ Proof.
   - c12_ret H. split; [apply c12_ple_refl|intros x []].
   - apply mbind_ok in H as (u1 & s1 & E1 & H). apply c12_py_add_type_var_spec in E1 as [L1 I1].
     destruct (IH _ _ _ H) as [L2 I2]. split; [eapply c12_ple_trans; eauto|].
-    intros x [<-|Hx]; [apply L2, I1|auto].
+    intros x [<-|Hx]; [apply (c12_ple_tv _ _ L2), I1|auto].
 Qed.
 
 Lemma c12_py_add_imports_spec tp s u s' : py_add_imports tp s = Ok (u, s') -> c12_ple s s'.
@@ -82,7 +121,7 @@ Definition c12_py_id_ok (id : str) : Prop := ~ In id c12_py_reserved.
 Definition c12_py_Qt (x : texp) (s : py_state) : Prop :=
   forall u, In u (c12_py_tnames x) -> In u c12_py_fixed -> c12_py_imp u s.
 Lemma c12_py_Qt_up x s s' : c12_py_Qt x s -> c12_ple s s' -> c12_py_Qt x s'.
-Proof. unfold c12_py_Qt, c12_py_imp. intros Q [L _] u Hu Hf. apply L. auto. Qed.
+Proof. unfold c12_py_Qt. intros Q L u Hu Hf. eapply c12_py_imp_up; eauto. Qed.
 
 Lemma c12_py_special_mapped t (k : M py_state texp) s x s' :
   (forall s x s', k s = Ok (x, s') -> c12_ple s s' /\ c12_py_Qt x s') ->
@@ -93,9 +132,10 @@ Lemma c12_py_special_mapped t (k : M py_state texp) s x s' :
   | None => k
   end s = Ok (x, s') -> c12_ple s s' /\ c12_py_Qt x s'.
 Proof.
-  intros Hk. destruct (tmap_get (py_type_mappings cfg) (rtype_display t)); [|apply Hk].
+  intros Hk. destruct (tmap_get (py_type_mappings cfg) (rtype_display t)) as [m|] eqn:Em; [|apply Hk].
   intros H. apply mbind_ok in H as (u & s1 & E & H). c12_ret H. split; [|intros u0 []].
-  destruct (py_is_some _); [eapply c12_py_add_custom_spec; eauto|c12_ret E; apply c12_ple_refl].
+  destruct (py_is_some _); [|c12_ret E; apply c12_ple_refl].
+  eapply c12_py_add_custom_spec; [exact E|]. intros ->. right. exists (rtype_display t). exact Em.
 Qed.
 
 Ltac c12_py_fixed_absurd Hf := apply c12_mem_str_In in Hf; vm_compute in Hf; discriminate Hf.
@@ -159,18 +199,202 @@ Proof.
     split; [exact L1|]. intros u0 [<-|[]] _. exact I1.
 Qed.
 
+(* ---- the two texts with (de)serialiser functions: `bytes` and `datetime` ---- *)
+Notation tm := (py_type_mappings cfg).
+
+Lemma c12_py_translation_custom p : py_is_some (py_json_translation_for_type p) = c12_py_is_custom p.
+Proof.
+  unfold py_json_translation_for_type, c12_py_is_custom. destruct (str_eqb p (lit "bytes")); [reflexivity|].
+  destruct (str_eqb p (lit "datetime")); reflexivity.
+Qed.
+
+Lemma c12_py_custom_reserved p : c12_py_is_custom p = true -> In p c12_py_reserved.
+Proof.
+  unfold c12_py_is_custom. intros H. apply c12_mem_str_In.
+  apply orb_true_iff in H as [H|H]; apply str_eqb_eq in H; subst; vm_compute; reflexivity.
+Qed.
+
+Definition c12_ch_lbr : char := 91%N.
+Lemma c12_py_lbr_not_custom p : In c12_ch_lbr p -> c12_py_is_custom p = false.
+Proof.
+  intros H. destruct (c12_py_is_custom p) eqn:E; [|reflexivity]. exfalso. unfold c12_py_is_custom in E.
+  apply orb_true_iff in E as [E|E]; apply str_eqb_eq in E; subst p; vm_compute in H;
+    repeat (destruct H as [H|H]; [discriminate H|]); exact H.
+Qed.
+Lemma c12_in_lbr_mid a r : In c12_ch_lbr (a ++ lit "[" ++ r).
+Proof. apply in_or_app. right. apply in_or_app. left. vm_compute. auto. Qed.
+Lemma c12_in_lbr_opt r : In c12_ch_lbr (lit "Optional[" ++ r).
+Proof. apply in_or_app. left. vm_compute. auto 20. Qed.
+
+(* what is known of a translated text p that is neither `bytes` nor `datetime` *)
+Lemma c12_py_noncustom_concl p s' : c12_py_is_custom p = false ->
+  None = (if c12_py_is_custom p then Some p else None) /\
+  (p = lit "datetime" -> c12_py_imp (lit "datetime") s' \/ c12_py_maps_dt).
+Proof. intros E. rewrite E. split; [reflexivity|]. intros ->. vm_compute in E. discriminate E. Qed.
+
+Lemma c12_py_id_not_custom id : c12_py_id_ok id -> c12_py_is_custom id = false.
+Proof.
+  intros Hok. destruct (c12_py_is_custom id) eqn:E; [|reflexivity]. exfalso. apply Hok, c12_py_custom_reserved, E.
+Qed.
+
+Definition c12_py_Ct (t : rtype) (x : texp) (s' : py_state) : Prop :=
+  c12_py_custom tm t = (if c12_py_is_custom (py_show x) then Some (py_show x) else None) /\
+  (py_show x = lit "datetime" -> c12_py_imp (lit "datetime") s' \/ c12_py_maps_dt).
+
+Lemma c12_py_special_custom t (k : M py_state texp) (dflt : option str) s x s' :
+  c12_py_custom tm t =
+    match tmap_get tm (rtype_display t) with
+    | Some m => if c12_py_is_custom m then Some m else None
+    | None => dflt
+    end ->
+  (forall s x s', k s = Ok (x, s') ->
+     dflt = (if c12_py_is_custom (py_show x) then Some (py_show x) else None) /\
+     (py_show x = lit "datetime" -> c12_py_imp (lit "datetime") s' \/ c12_py_maps_dt)) ->
+  match tmap_get tm (rtype_display t) with
+  | Some mapped =>
+    mbind (if py_is_some (py_json_translation_for_type mapped) then py_add_custom_type mapped else ret tt)
+          (fun _ => ret (XRaw mapped))
+  | None => k
+  end s = Ok (x, s') -> c12_py_Ct t x s'.
+Proof.
+  unfold c12_py_Ct. intros Hc Hk. rewrite Hc. destruct (tmap_get tm (rtype_display t)) as [m|] eqn:Em; [|apply Hk].
+  intros H. apply mbind_ok in H as (u & s1 & E & H). c12_ret H. cbn [py_show]. split; [reflexivity|].
+  intros ->. right. exists (rtype_display t). exact Em.
+Qed.
+
+(* the WHOLE translated text is `bytes` / `datetime` exactly when the spec's reader c12_py_custom says so
+   (no recursion: anything below a List[ / Optional[ / Dict[ / Name[ is not the whole text); and the
+   text `datetime` comes with the datetime import unless it is a type_mappings value *)
+Lemma c12_py_texp_custom gs t :
+  Forall c12_py_id_ok (c12_rtype_ids t) ->
+  forall s x s', py_texp cfg gs t s = Ok (x, s') -> c12_py_Ct t x s'.
+Proof.
+  intros Hid s x s' H. destruct t as [id|id ps|t|t n|t|k v|t|p]; cbn [py_texp] in H.
+  - apply mbind_ok in H as (u & s1 & E & H). c12_ret H. unfold c12_py_Ct. cbv beta iota zeta delta [c12_py_custom].
+    destruct (tmap_get tm id) as [m|] eqn:Em; cbn [py_show].
+    + split; [reflexivity|]. intros ->. right. exists id. exact Em.
+    + inversion Hid as [|? ? Hok _]. apply c12_py_noncustom_concl, c12_py_id_not_custom, Hok.
+  - cbn [c12_rtype_ids] in Hid. apply Forall_cons_iff in Hid as [Hid0 _].
+    apply mbind_ok in H as (u & s1 & E & H). unfold c12_py_Ct. cbv beta iota zeta delta [c12_py_custom].
+    destruct (tmap_get tm id) as [m|] eqn:Em.
+    + c12_ret H. cbn [py_show]. split; [reflexivity|]. intros ->. right. exists id. exact Em.
+    + apply mbind_ok in H as (parts & s2 & Ep & H). c12_ret H. apply c12_py_noncustom_concl.
+      destruct parts as [|a r]; cbn [py_show]; [exact (c12_py_id_not_custom _ Hid0)|].
+      apply c12_py_lbr_not_custom, c12_in_lbr_mid.
+  - revert H. apply (c12_py_special_custom _ _ None); [reflexivity|]. intros s0 x0 s0' H.
+    apply mbind_ok in H as (u & s1 & E & H). apply mbind_ok in H as (e & s2 & Ee & H). c12_ret H.
+    apply c12_py_noncustom_concl, c12_py_lbr_not_custom. cbn [py_show]. apply c12_in_lbr_mid.
+  - revert H. apply (c12_py_special_custom _ _ None); [reflexivity|]. intros s0 x0 s0' H.
+    apply mbind_ok in H as (u & s1 & E & H). apply mbind_ok in H as (e & s2 & Ee & H). c12_ret H.
+    apply c12_py_noncustom_concl, c12_py_lbr_not_custom. cbn [py_show]. apply c12_in_lbr_mid.
+  - revert H. apply (c12_py_special_custom _ _ None); [reflexivity|]. intros s0 x0 s0' H.
+    apply mbind_ok in H as (u & s1 & E & H). apply mbind_ok in H as (e & s2 & Ee & H). c12_ret H.
+    apply c12_py_noncustom_concl, c12_py_lbr_not_custom. cbn [py_show]. apply c12_in_lbr_mid.
+  - revert H. apply (c12_py_special_custom _ _ None); [reflexivity|]. intros s0 x0 s0' H.
+    apply mbind_ok in H as (u & s1 & E & H). apply mbind_ok in H as (ke & s2 & Ek & H).
+    apply mbind_ok in H as (ve & s3 & Ev & H). c12_ret H.
+    apply c12_py_noncustom_concl, c12_py_lbr_not_custom. cbn [py_show]. apply c12_in_lbr_mid.
+  - revert H. apply (c12_py_special_custom _ _ None); [reflexivity|]. intros s0 x0 s0' H.
+    apply mbind_ok in H as (u & s1 & E & H). apply mbind_ok in H as (e & s2 & Ee & H). c12_ret H.
+    apply c12_py_noncustom_concl, c12_py_lbr_not_custom. cbn [py_show]. apply c12_in_lbr_opt.
+  - destruct p; revert H;
+      try (apply (c12_py_special_custom _ _ None); [reflexivity|]; intros s0 x0 s0' H; c12_ret H;
+           apply c12_py_noncustom_concl; vm_compute; reflexivity).
+    apply (c12_py_special_custom _ _ (Some (lit "datetime"))); [reflexivity|]. intros s0 x0 s0' H.
+    apply mbind_ok in H as (u & s1 & E & H). apply c12_py_add_import_spec in E as [_ I]. c12_ret H.
+    split; [vm_compute; reflexivity|]. intros _. left. exact I.
+Qed.
+
+Lemma c12_py_add_custom_in t s u s' : py_add_custom_type t s = Ok (u, s') -> In t (py_custom_types s').
+Proof.
+  unfold py_add_custom_type, mbind, mget, mput. intros [= _ <-]. cbn [py_custom_types]. apply c12_sset_insert_in. auto.
+Qed.
+
+(* every mapped text the formatter itself registers while translating t (the spec's c12_py_registers,
+   any depth) is in the translation set afterwards *)
+Definition c12_py_Rt (t : rtype) (s : py_state) : Prop := incl (c12_py_registers tm t) (py_custom_types s).
+Lemma c12_py_Rt_up t s s' : c12_py_Rt t s -> c12_ple s s' -> c12_py_Rt t s'.
+Proof. unfold c12_py_Rt. intros H L. eapply incl_tran; [exact H|exact (c12_ple_cu _ _ L)]. Qed.
+
+Lemma c12_py_special_registers t (k : M py_state texp) (below : list str) s x s' :
+  (forall s x s', k s = Ok (x, s') -> incl below (py_custom_types s')) ->
+  match tmap_get tm (rtype_display t) with
+  | Some mapped =>
+    mbind (if py_is_some (py_json_translation_for_type mapped) then py_add_custom_type mapped else ret tt)
+          (fun _ => ret (XRaw mapped))
+  | None => k
+  end s = Ok (x, s') ->
+  incl (match tmap_get tm (rtype_display t) with
+        | Some m => if c12_py_is_custom m then [m] else []
+        | None => below
+        end) (py_custom_types s').
+Proof.
+  intros Hk. destruct (tmap_get tm (rtype_display t)) as [m|] eqn:Em; [|apply Hk].
+  intros H. apply mbind_ok in H as (u & s1 & E & H). c12_ret H. rewrite <- c12_py_translation_custom.
+  destruct (py_is_some _); [|intros y []]. intros y [<-|[]]. eapply c12_py_add_custom_in; eauto.
+Qed.
+
+Lemma c12_py_texp_registers gs t :
+  Forall c12_py_id_ok (c12_rtype_ids t) ->
+  forall s x s', py_texp cfg gs t s = Ok (x, s') -> c12_py_Rt t s'.
+Proof.
+  unfold c12_py_Rt.
+  induction t as [id|id ps IH|t IH|t n IH|t IH|k v IHk IHv|t IH|p] using rtype_ind'; intros Hid s x s' H;
+    cbn [py_texp] in H; cbn [c12_py_registers].
+  - intros y [].
+  - cbn [c12_rtype_ids] in Hid. apply Forall_cons_iff in Hid as [Hid0 Hids].
+    apply mbind_ok in H as (u & s1 & E & H).
+    destruct (tmap_get tm id); [intros y []|].
+    rewrite c12_go_is_mmapM in H. apply mbind_ok in H as (xs & s2 & Exs & H). c12_ret H.
+    apply (c12_mmapM_mono2 c12_ple c12_ple_refl c12_ple_trans _ (fun _ _ => True) c12_py_Rt) in Exs as (_ & _ & R).
+    + intros y Hy. apply in_flat_map in Hy as (t & Ht & Hy). rewrite Forall_forall in R. exact (R t Ht y Hy).
+    + auto.
+    + exact c12_py_Rt_up.
+    + rewrite Forall_forall in IH |- *. intros t Ht s0 y s0' E0.
+      assert (Hidt : Forall c12_py_id_ok (c12_rtype_ids t)).
+      { rewrite Forall_forall in Hids |- *. intros i Hi. apply Hids. apply in_flat_map. eauto. }
+      split; [exact (proj1 (c12_py_texp_imports _ _ Hidt _ _ _ E0))|]. split; [exact Logic.I|].
+      exact (IH t Ht Hidt _ _ _ E0).
+  - revert H. apply c12_py_special_registers. intros s0 x0 s0' H.
+    apply mbind_ok in H as (u & s1 & E & H). apply mbind_ok in H as (e & s2 & Ee & H). c12_ret H. exact (IH Hid _ _ _ Ee).
+  - revert H. apply c12_py_special_registers. intros s0 x0 s0' H.
+    apply mbind_ok in H as (u & s1 & E & H). apply mbind_ok in H as (e & s2 & Ee & H). c12_ret H. exact (IH Hid _ _ _ Ee).
+  - revert H. apply c12_py_special_registers. intros s0 x0 s0' H.
+    apply mbind_ok in H as (u & s1 & E & H). apply mbind_ok in H as (e & s2 & Ee & H). c12_ret H. exact (IH Hid _ _ _ Ee).
+  - revert H. apply c12_py_special_registers. intros s0 x0 s0' H.
+    cbn [c12_rtype_ids] in Hid. apply Forall_app in Hid as [Hk Hv].
+    apply mbind_ok in H as (u & s1 & E & H). apply mbind_ok in H as (ke & s2 & Ek & H).
+    apply mbind_ok in H as (ve & s3 & Ev & H). c12_ret H.
+    assert (Ek' : py_texp cfg gs k s1 = Ok (ke, s2)).
+    { destruct k; try exact Ek. destruct (mem_str id gs); [discriminate Ek|exact Ek]. }
+    apply incl_app; [|exact (IHv Hv _ _ _ Ev)].
+    eapply incl_tran; [exact (IHk Hk _ _ _ Ek')|]. apply c12_ple_cu. exact (proj1 (c12_py_texp_imports _ _ Hv _ _ _ Ev)).
+  - revert H. apply c12_py_special_registers. intros s0 x0 s0' H.
+    apply mbind_ok in H as (u & s1 & E & H). apply mbind_ok in H as (e & s2 & Ee & H). c12_ret H. exact (IH Hid _ _ _ Ee).
+  - revert H. apply c12_py_special_registers. intros s0 x0 s0' _ y [].
+Qed.
+
 (* ---- declarations ---- *)
-Variable tvs : list str.
+Variable tvs : list str.             (* the generic parameter names of the program *)
+Variable allfields : list rfield.    (* the named fields of the program (structs and struct variants) *)
 Definition c12_py_fn_names : list str :=
   [lit "serialize_binary_data"; lit "deserialize_binary_data"; lit "serialize_datetime_data"; lit "parse_rfc3339"].
-(* a used name is a type-variable name of the program, a (de)serialiser function name, a TypeVar the
+(* u is a (de)serialiser function of a text p that is in the translation set, or that some
+   serde(default) field of a non-Option type prints as (decided by the spec's reader of the INPUT) *)
+Definition c12_py_fnok (u : str) (s : py_state) : Prop :=
+  exists p ct, py_json_translation_for_type p = Some ct /\ (u = py_de_name ct \/ u = py_ser_name ct) /\
+    (In p (py_custom_types s) \/
+     exists f, In f allfields /\ c12_py_wrapped f = true /\ c12_py_custom tm (fty f) = Some p).
+(* a used name is a type-variable name of the program, such a function name, a TypeVar the
    header declares, or imported *)
 Definition c12_py_ok (u : str) (s : py_state) : Prop :=
-  In u tvs \/ In u c12_py_fn_names \/ In u (py_type_variables s) \/ c12_py_imp u s.
+  In u tvs \/ c12_py_fnok u s \/ In u (py_type_variables s) \/ c12_py_imp u s.
 Lemma c12_py_ok_up u s s' : c12_py_ok u s -> c12_ple s s' -> c12_py_ok u s'.
 Proof.
   unfold c12_py_ok. intros [H|[H|[H|H]]] L; auto.
-  - right. right. left. apply (proj2 L), H.
+  - right. left. destruct H as (p & ct & E & Hu & [Hp|Hf]); exists p, ct; repeat split; auto.
+    left. apply (c12_ple_cu _ _ L), Hp.
+  - right. right. left. apply (c12_ple_tv _ _ L), H.
   - right. right. right. eapply c12_py_imp_up; eauto.
 Qed.
 Definition c12_py_all (l : list str) (s : py_state) : Prop := forall u, In u l -> c12_py_ok u s.
@@ -214,47 +438,87 @@ Proof.
   unfold py_json_translation_for_type. destruct (str_eqb t (lit "bytes")); [intros [= <-]; vm_compute; auto|].
   destruct (str_eqb t (lit "datetime")); [intros [= <-]; vm_compute; auto 10|discriminate].
 Qed.
+Lemma c12_py_fnok_names u s : c12_py_fnok u s -> In u c12_py_fn_names.
+Proof. intros (p & ct & E & [->| ->] & _); apply (c12_py_translation_names _ _ E). Qed.
 
 Definition c12_py_Qm (m : py_member) (s : py_state) : Prop := c12_py_all (c12_py_member_uses tvs m) s.
+(* what writing the field f leaves in the translation set *)
+Definition c12_py_Rf (f : rfield) (s : py_state) : Prop :=
+  c12_py_Rt (fty f) s /\
+  (c12_py_wrapped f = false -> forall p, c12_py_custom tm (fty f) = Some p -> In p (py_custom_types s)).
+Lemma c12_py_Rf_up f s s' : c12_py_Rf f s -> c12_ple s s' -> c12_py_Rf f s'.
+Proof.
+  intros [A B] L. split; [eapply c12_py_Rt_up; eauto|]. intros W p Hp. apply (c12_ple_cu _ _ L). exact (B W p Hp).
+Qed.
+Definition c12_py_Rfs (fs : list rfield) (s : py_state) : Prop := Forall (fun f => c12_py_Rf f s) fs.
+Lemma c12_py_Rfs_up fs s s' : c12_py_Rfs fs s -> c12_ple s s' -> c12_py_Rfs fs s'.
+Proof. unfold c12_py_Rfs. intros H L. eapply Forall_impl; [|exact H]. cbn. intros f Hf. eapply c12_py_Rf_up; eauto. Qed.
+
+Lemma c12_lbr_not_dt p : In c12_ch_lbr p -> p <> lit "datetime".
+Proof. intros H ->. vm_compute in H. repeat (destruct H as [H|H]; [discriminate H|]). exact H. Qed.
 
 Lemma c12_py_member_flag gs f :
-  Forall c12_py_id_ok (c12_rtype_ids (fty f)) ->
-  forall s m s', py_member_of uc cfg gs f s = Ok (m, s') -> c12_ple s s' /\ c12_py_Qm m s'.
+  Forall c12_py_id_ok (c12_rtype_ids (fty f)) -> In f allfields ->
+  forall s m s', py_member_of uc cfg gs f s = Ok (m, s') -> c12_ple s s' /\ c12_py_Qm m s' /\ c12_py_Rf f s'.
 Proof.
-  intros Hid s m s' H. unfold py_member_of in H.
+  intros Hid Hall s m s' H. unfold py_member_of in H.
   apply mbind_ok in H as (ty & s1 & Ety & H). destruct (c12_py_texp_imports _ _ Hid _ _ _ Ety) as [L1 Q1].
+  destruct (c12_py_texp_custom _ _ Hid _ _ _ Ety) as [C1 D1]. pose proof (c12_py_texp_registers _ _ Hid _ _ _ Ety) as R1.
   apply mbind_ok in H as (u & s2 & Ec & H). apply c12_py_common_spec in Ec as (L2 & IO & IA & IF).
   apply mbind_ok in H as (ann & s3 & Ea & H). c12_ret H.
-  assert (L3 : c12_ple s2 s3).
-  { destruct (py_json_translation_for_type (py_show ty)); [|c12_ret Ea; apply c12_ple_refl].
-    apply mbind_ok in Ea as (u3 & s4 & E4 & Ea). apply c12_py_add_custom_spec in E4. c12_ret Ea. exact E4. }
-  split; [eapply c12_ple_trans; [exact L1|eapply c12_ple_trans; eauto]|].
-  unfold c12_py_Qm, c12_py_member_uses. cbn [pym_type pym_annotated pym_alias pym_default_none].
-  intros u0 Hu. apply in_app_iff in Hu as [Hu|Hu]; [|apply in_app_iff in Hu as [Hu|Hu]].
-  - eapply c12_py_ok_up; [|exact L3].
-    assert (Q : c12_py_Qt (if negb (is_optional (fty f)) && has_default f then XOpt ty else ty) s2).
-    { destruct (negb (is_optional (fty f)) && has_default f) eqn:En.
-      - intros v [<-|Hv] Hf.
-        + apply IO. apply andb_true_iff in En as [_ ->]. apply orb_true_r.
-        + eapply c12_py_imp_up; [exact (Q1 v Hv Hf)|exact L2].
-      - eapply c12_py_Qt_up; eauto. }
-    exact (c12_py_tuses_ok _ _ Q u0 Hu).
-  - destruct (py_json_translation_for_type (py_show ty)) as [ct|] eqn:Ect.
-    + apply mbind_ok in Ea as (u3 & s4 & E4 & Ea). c12_ret Ea.
-      destruct (IA eq_refl) as (J1 & J2 & J3). destruct (c12_py_translation_names _ _ Ect) as [N1 N2].
-      destruct Hu as [<-|[<-|[<-|[<-|[<-|[]]]]]].
-      * right. right. right. eapply c12_py_imp_up; eauto.
-      * right. right. right. eapply c12_py_imp_up; eauto.
-      * right. right. right. eapply c12_py_imp_up; eauto.
-      * right. left. exact N1.
-      * right. left. exact N2.
-    + c12_ret Ea. destruct Hu.
-  - right. right. right. eapply c12_py_imp_up; [|exact L3].
-    destruct (_ || _) eqn:Eb in Hu; [|destruct Hu]. destruct Hu as [<-|[]]. apply IF.
-    apply orb_true_iff in Eb as [Eb|Eb].
-    + destruct (negb (str_eqb _ _)); [reflexivity|discriminate Eb].
-    + apply orb_true_iff in Eb as [Eb|Eb]; [rewrite Eb; apply orb_true_r|].
-      apply andb_true_iff in Eb as [_ Eb]. rewrite Eb, !orb_true_r. reflexivity.
+  assert (Hwr : c12_py_wrapped f = negb (is_optional (fty f)) && has_default f) by (unfold c12_py_wrapped; apply andb_comm).
+  pose proof (c12_py_translation_custom (py_show ty)) as Htc.
+  (* the annotation step *)
+  assert (A3 : c12_ple s2 s3 /\
+               match py_json_translation_for_type (py_show ty) with
+               | Some ct => ann = Some (py_de_name ct, py_ser_name ct) /\
+                            In (py_show (if negb (is_optional (fty f)) && has_default f then XOpt ty else ty)) (py_custom_types s3)
+               | None => ann = None
+               end).
+  { destruct (py_json_translation_for_type (py_show ty)) as [ct|] eqn:Ect.
+    - apply mbind_ok in Ea as (u3 & s4 & E4 & Ea). c12_ret Ea.
+      apply c12_py_add_custom_spec in E4 as [L4 I4]; [split; [exact L4|split; [reflexivity|exact I4]]|].
+      destruct (negb (is_optional (fty f)) && has_default f).
+      + intros E. exfalso. revert E. apply c12_lbr_not_dt. cbn [py_show]. apply c12_in_lbr_opt.
+      + intros E. destruct (D1 E) as [K|K]; [left; eapply c12_py_imp_up; eauto|right; exact K].
+    - c12_ret Ea. split; [apply c12_ple_refl|reflexivity]. }
+  destruct A3 as [L3 A3].
+  split; [eapply c12_ple_trans; [exact L1|eapply c12_ple_trans; eauto]|]. split.
+  - unfold c12_py_Qm, c12_py_member_uses. cbn [pym_type pym_annotated pym_alias pym_default_none].
+    intros u0 Hu. apply in_app_iff in Hu as [Hu|Hu]; [|apply in_app_iff in Hu as [Hu|Hu]].
+    + eapply c12_py_ok_up; [|exact L3].
+      assert (Q : c12_py_Qt (if negb (is_optional (fty f)) && has_default f then XOpt ty else ty) s2).
+      { destruct (negb (is_optional (fty f)) && has_default f) eqn:En.
+        - intros v [<-|Hv] Hf.
+          + apply IO. apply andb_true_iff in En as [_ ->]. apply orb_true_r.
+          + eapply c12_py_imp_up; [exact (Q1 v Hv Hf)|exact L2].
+        - eapply c12_py_Qt_up; eauto. }
+      exact (c12_py_tuses_ok _ _ Q u0 Hu).
+    + destruct (py_json_translation_for_type (py_show ty)) as [ct|] eqn:Ect.
+      * destruct A3 as [-> I4]. cbn [py_is_some] in Htc.
+        destruct (IA eq_refl) as (J1 & J2 & J3).
+        assert (F : forall u1, u1 = py_de_name ct \/ u1 = py_ser_name ct -> c12_py_fnok u1 s3).
+        { intros u1 Hu1. exists (py_show ty), ct. split; [exact Ect|]. split; [exact Hu1|].
+          destruct (negb (is_optional (fty f)) && has_default f) eqn:En; [right|left; exact I4].
+          exists f. split; [exact Hall|]. split; [exact Hwr|]. rewrite C1, <- Htc. reflexivity. }
+        destruct Hu as [<-|[<-|[<-|[<-|[<-|[]]]]]].
+        -- right. right. right. eapply c12_py_imp_up; eauto.
+        -- right. right. right. eapply c12_py_imp_up; eauto.
+        -- right. right. right. eapply c12_py_imp_up; eauto.
+        -- right. left. apply F. now left.
+        -- right. left. apply F. now right.
+      * rewrite A3 in Hu. destruct Hu.
+    + right. right. right. eapply c12_py_imp_up; [|exact L3].
+      destruct (_ || _) eqn:Eb in Hu; [|destruct Hu]. destruct Hu as [<-|[]]. apply IF.
+      apply orb_true_iff in Eb as [Eb|Eb].
+      * destruct (negb (str_eqb _ _)); [reflexivity|discriminate Eb].
+      * apply orb_true_iff in Eb as [Eb|Eb]; [rewrite Eb; apply orb_true_r|].
+        apply andb_true_iff in Eb as [_ Eb]. rewrite Eb, !orb_true_r. reflexivity.
+  - split.
+    + eapply c12_py_Rt_up; [exact R1|]. eapply c12_ple_trans; eauto.
+    + intros W p Hp. rewrite C1 in Hp. rewrite Hwr in W. rewrite W in A3.
+      destruct (py_json_translation_for_type (py_show ty)) as [ct|]; cbn [py_is_some] in Htc; rewrite <- Htc in Hp; [|discriminate Hp].
+      injection Hp as <-. exact (proj2 A3).
 Qed.
 
 Definition c12_py_Qd (d : py_decl) (s : py_state) : Prop := c12_py_all (c12_py_decl_uses tvs d) s.
@@ -272,13 +536,18 @@ Proof.
   - intros H. c12_ret H. split; [apply c12_ple_refl|discriminate].
 Qed.
 
-Definition c12_py_fields_ok (fs : list rfield) : Prop := Forall (fun f => Forall c12_py_id_ok (c12_rtype_ids (fty f))) fs.
+Definition c12_py_fields_ok (fs : list rfield) : Prop :=
+  Forall (fun f => Forall c12_py_id_ok (c12_rtype_ids (fty f))) fs /\ incl fs allfields.
+
+(* what writing a class leaves behind: its fields' translations, a TypeVar for each of its parameters *)
+Definition c12_py_Rs (rs : rstruct) (s : py_state) : Prop :=
+  c12_py_Rfs (sfields rs) s /\ incl (sgenerics rs) (py_type_variables s).
 
 Lemma c12_py_class_flag rs :
   c12_py_fields_ok (sfields rs) ->
-  forall s d s', py_class_of uc cfg rs s = Ok (d, s') -> c12_ple s s' /\ c12_py_Qd d s'.
+  forall s d s', py_class_of uc cfg rs s = Ok (d, s') -> c12_ple s s' /\ c12_py_Qd d s' /\ c12_py_Rs rs s'.
 Proof.
-  intros Hid s d s' H. unfold py_class_of in H.
+  intros [Hid Hall] s d s' H. unfold py_class_of in H.
   apply mbind_ok in H as (u1 & s1 & E1 & H). apply c12_py_add_import_spec in E1 as [L1 I1].
   apply mbind_ok in H as (u2 & s2 & E2 & H). apply c12_py_add_type_vars_spec in E2 as [L2 I2].
   apply mbind_ok in H as (u3 & s3 & E3 & H).
@@ -288,55 +557,71 @@ Proof.
   destruct A3 as [L3 I3].
   apply mbind_ok in H as (config & s4 & E4 & H). apply c12_py_populate_spec in E4 as [L4 I4].
   apply mbind_ok in H as (ms & s5 & E5 & H). c12_ret H.
-  apply (c12_mmapM_mono c12_ple c12_ple_refl c12_ple_trans _ c12_py_Qm) in E5 as [L5 Q5].
+  apply (c12_mmapM_mono2 c12_ple c12_ple_refl c12_ple_trans _ c12_py_Qm c12_py_Rf) in E5 as (L5 & Q5 & R5).
   2: { intros y a b Qy Lab. eapply c12_py_all_up; eauto. }
-  2: { eapply Forall_impl; [|exact Hid]. cbn. intros f Hf. apply c12_py_member_flag. exact Hf. }
+  2: exact c12_py_Rf_up.
+  2: { rewrite Forall_forall in Hid |- *. intros f Hf. apply c12_py_member_flag; [exact (Hid f Hf)|exact (Hall f Hf)]. }
   assert (M4 : c12_ple s4 s5) by exact L5.
   assert (M3 : c12_ple s3 s5) by (eapply c12_ple_trans; eauto).
   assert (M2 : c12_ple s2 s5) by (eapply c12_ple_trans; eauto).
   assert (M1 : c12_ple s1 s5) by (eapply c12_ple_trans; eauto).
-  split; [eapply c12_ple_trans; eauto|].
+  split; [eapply c12_ple_trans; eauto|]. split.
+  2: { split; [exact R5|]. intros g Hg. apply (c12_ple_tv _ _ M2). apply I2. exact Hg. }
   intros u0 Hu. cbn [c12_py_decl_uses] in Hu. destruct Hu as [<-|Hu].
   { right. right. right. eapply c12_py_imp_up; eauto. }
   apply in_app_iff in Hu as [Hu|Hu].
   { destruct (sgenerics rs) as [|g gs] eqn:Eg; [destruct Hu|]. destruct Hu as [<-|Hu].
     - right. right. right. eapply c12_py_imp_up; [apply I3; congruence|exact M3].
-    - right. right. left. apply (proj2 M2). apply I2. exact Hu. }
+    - right. right. left. apply (c12_ple_tv _ _ M2). apply I2. exact Hu. }
   apply in_app_iff in Hu as [Hu|Hu].
   { destruct config; [|destruct Hu]. destruct Hu as [<-|[]]. right. right. right. eapply c12_py_imp_up; [apply I4; reflexivity|exact M4]. }
   apply in_flat_map in Hu as (m & Hm & Hu). rewrite Forall_forall in Q5. exact (Q5 m Hm u0 Hu).
 Qed.
 
+(* the named fields of struct variants (as in the spec's c12_item_fields) *)
+Definition c12_anon_fields (vs : list rvariant) : list rfield :=
+  flat_map (fun v => match v with VAnon fs _ => fs | _ => [] end) vs.
+
 Lemma c12_py_inner_flag e vs :
   Forall (fun v => Forall (fun t => Forall c12_py_id_ok (c12_rtype_ids t)) (c12_variant_types v)) vs ->
-  forall s ds s', py_inner_classes_of uc cfg e vs s = Ok (ds, s') -> c12_ple s s' /\ c12_py_Qds ds s'.
+  incl (c12_anon_fields vs) allfields ->
+  forall s ds s', py_inner_classes_of uc cfg e vs s = Ok (ds, s') ->
+    c12_ple s s' /\ c12_py_Qds ds s' /\ c12_py_Rfs (c12_anon_fields vs) s'.
 Proof.
-  induction 1 as [|v vs Hv Hvs IH]; intros s ds s' H; cbn [py_inner_classes_of] in H.
-  - c12_ret H. split; [apply c12_ple_refl|constructor].
-  - destruct v as [vsh|t vsh|fs vsh]; try (exact (IH _ _ _ H)).
+  induction 1 as [|v vs Hv Hvs IH]; intros Hall s ds s' H; cbn [py_inner_classes_of] in H.
+  - c12_ret H. split; [apply c12_ple_refl|split; constructor].
+  - unfold c12_anon_fields in Hall |- *. cbn [flat_map] in Hall |- *.
+    destruct v as [vsh|t vsh|fs vsh]; try (apply IH; [exact Hall|exact H]).
+    apply incl_app_inv in Hall as [Hall1 Hall2].
     apply mbind_ok in H as (c & s1 & Ec & H). apply mbind_ok in H as (cs & s2 & Ecs & H). c12_ret H.
-    apply c12_py_class_flag in Ec as [L1 Q1].
-    + destruct (IH _ _ _ Ecs) as [L2 Q2]. split; [eapply c12_ple_trans; eauto|].
-      constructor; [eapply c12_py_Qd_up; eauto|exact Q2].
-    + unfold c12_py_fields_ok. cbn [anon_struct sfields]. cbn [c12_variant_types] in Hv. rewrite Forall_map in Hv. exact Hv.
+    apply c12_py_class_flag in Ec as (L1 & Q1 & R1 & _).
+    + destruct (IH Hall2 _ _ _ Ecs) as (L2 & Q2 & R2). split; [eapply c12_ple_trans; eauto|]. split.
+      * constructor; [eapply c12_py_Qd_up; eauto|exact Q2].
+      * apply Forall_app. split; [|exact R2]. cbn [anon_struct sfields] in R1. exact (c12_py_Rfs_up _ _ _ R1 L2).
+    + split; cbn [anon_struct sfields]; [|exact Hall1]. cbn [c12_variant_types] in Hv. rewrite Forall_map in Hv. exact Hv.
 Qed.
 
 Definition c12_py_Qv (v : py_variant) (s : py_state) : Prop :=
   c12_py_imp (lit "Literal") s /\ match pyv_content v with PYCType ty => c12_py_Qt ty s | _ => True end.
+Definition c12_py_Rv (v : rvariant) (s : py_state) : Prop :=
+  match v with VTuple t _ => c12_py_Rt t s | _ => True end.
+Lemma c12_py_Rv_up v s s' : c12_py_Rv v s -> c12_ple s s' -> c12_py_Rv v s'.
+Proof. destruct v; cbn [c12_py_Rv]; auto. apply c12_py_Rt_up. Qed.
 
 Lemma c12_py_variant_flag en tn sh v :
   Forall (fun t => Forall c12_py_id_ok (c12_rtype_ids t)) (c12_variant_types v) ->
-  forall s d s', py_variant_of uc cfg en tn sh v s = Ok (d, s') -> c12_ple s s' /\ c12_py_Qv d s'.
+  forall s d s', py_variant_of uc cfg en tn sh v s = Ok (d, s') -> c12_ple s s' /\ c12_py_Qv d s' /\ c12_py_Rv v s'.
 Proof.
   intros Hid s d s' H. unfold py_variant_of in H. destruct v as [vsh|t vsh|fs vsh].
   - apply mbind_ok in H as (u & s1 & E & H). apply c12_py_add_import_spec in E as [L J]. c12_ret H.
-    split; [exact L|split; [exact J|exact Logic.I]].
+    split; [exact L|split; [split; [exact J|exact Logic.I]|exact Logic.I]].
   - apply mbind_ok in H as (tn0 & s1 & Et & H). cbn [c12_variant_types] in Hid. apply Forall_cons_iff in Hid as [Ht _].
-    destruct (c12_py_texp_imports _ _ Ht _ _ _ Et) as [L1 Q1].
+    destruct (c12_py_texp_imports _ _ Ht _ _ _ Et) as [L1 Q1]. pose proof (c12_py_texp_registers _ _ Ht _ _ _ Et) as R1.
     apply mbind_ok in H as (u & s2 & E & H). apply c12_py_add_import_spec in E as [L2 I2]. c12_ret H.
-    split; [eapply c12_ple_trans; eauto|]. split; [exact I2|]. cbn [pyv_content]. eapply c12_py_Qt_up; eauto.
+    split; [eapply c12_ple_trans; eauto|]. split; [|cbn [c12_py_Rv]; eapply c12_py_Rt_up; eauto].
+    split; [exact I2|]. cbn [pyv_content]. eapply c12_py_Qt_up; eauto.
   - apply mbind_ok in H as (u & s1 & E & H). apply c12_py_add_import_spec in E as [L J]. c12_ret H.
-    split; [exact L|split; [exact J|exact Logic.I]].
+    split; [exact L|split; [split; [exact J|exact Logic.I]|exact Logic.I]].
 Qed.
 
 Lemma c12_py_Qv_up v s s' : c12_py_Qv v s -> c12_ple s s' -> c12_py_Qv v s'.
@@ -354,14 +639,16 @@ Qed.
 
 Lemma c12_py_algebraic_flag tag content en sh :
   Forall (fun v => Forall (fun t => Forall c12_py_id_ok (c12_rtype_ids t)) (c12_variant_types v)) (evariants sh) ->
-  forall s d s', py_algebraic_of uc cfg tag content en sh s = Ok (d, s') -> c12_ple s s' /\ c12_py_Qd d s'.
+  forall s d s', py_algebraic_of uc cfg tag content en sh s = Ok (d, s') ->
+    c12_ple s s' /\ c12_py_Qd d s' /\
+    Forall (fun v => c12_py_Rv v s') (evariants sh) /\ incl (egenerics sh) (py_type_variables s').
 Proof.
   intros Hid s d s' H. unfold py_algebraic_of in H.
-  apply mbind_ok in H as (u1 & s1 & E1 & H). apply c12_py_add_type_vars_spec in E1 as [L1 _].
+  apply mbind_ok in H as (u1 & s1 & E1 & H). apply c12_py_add_type_vars_spec in E1 as [L1 T1].
   apply mbind_ok in H as (u2 & s2 & E2 & H). apply c12_py_add_import_spec in E2 as [L2 I2].
   apply mbind_ok in H as (u3 & s3 & E3 & H). apply c12_py_add_import_spec in E3 as [L3 I3].
   apply mbind_ok in H as (vs & s4 & E4 & H). apply mbind_ok in H as (u5 & s5 & E5 & H). c12_ret H.
-  apply (c12_mmapM_mono c12_ple c12_ple_refl c12_ple_trans _ c12_py_Qv _ c12_py_Qv_up) in E4 as [L4 Q4].
+  apply (c12_mmapM_mono2 c12_ple c12_ple_refl c12_ple_trans _ c12_py_Qv c12_py_Rv _ c12_py_Qv_up c12_py_Rv_up) in E4 as (L4 & Q4 & R4).
   2: { eapply Forall_impl; [|exact Hid]. cbn. intros v Hv s0 y s0' E0. exact (c12_py_variant_flag _ _ _ _ Hv _ _ _ E0). }
   assert (A5 : c12_ple s4 s5 /\ (match vs with [_] => False | _ => True end -> c12_py_imp (lit "Union") s5)).
   { destruct vs as [|v0 [|v1 r]].
@@ -371,7 +658,11 @@ Proof.
   destruct A5 as [L5 I5].
   assert (M3 : c12_ple s3 s5) by (eapply c12_ple_trans; eauto).
   assert (M2 : c12_ple s2 s5) by (eapply c12_ple_trans; eauto).
-  split; [eapply c12_ple_trans; [exact L1|eapply c12_ple_trans; eauto]|].
+  assert (M1 : c12_ple s1 s5) by (eapply c12_ple_trans; eauto).
+  split; [eapply c12_ple_trans; [exact L1|exact M1]|]. split.
+  2: { split.
+       - eapply Forall_impl; [|exact R4]. cbn. intros v Rv. eapply c12_py_Rv_up; eauto.
+       - intros g Hg. apply (c12_ple_tv _ _ M1). apply T1. exact Hg. }
   intros u0 Hu. cbn [c12_py_decl_uses] in Hu. destruct Hu as [<-|Hu].
   { right. right. right. eapply c12_py_imp_up; eauto. }
   apply in_app_iff in Hu as [Hu|Hu].
@@ -383,63 +674,134 @@ Proof.
   - right. right. right. destruct vs as [|v0 [|v1 r]]; try (destruct Hu as [<-|[]]; apply I5; exact Logic.I). destruct Hu.
 Qed.
 
+(* the generic parameters for which writing the item declares a TypeVar (the summand of c12_py_tv_declared) *)
+Definition c12_py_item_tvs (it : ritem) : list str :=
+  match it with
+  | ItStruct s => sgenerics s
+  | ItEnum (EAlgebraic _ _ sh) => egenerics sh
+  | _ => []
+  end.
+
 Definition c12_py_item_ok (it : ritem) : Prop :=
   Forall (fun t => Forall c12_py_id_ok (c12_rtype_ids t)) (c12_item_types it) /\
-  match it with ItAlias a => incl (agenerics a) tvs | _ => True end.
+  match it with ItAlias a => incl (agenerics a) tvs | _ => True end /\
+  incl (c12_item_fields it) allfields.
+
+(* what writing the item leaves in the state *)
+Definition c12_py_Ri (it : ritem) (s : py_state) : Prop :=
+  Forall (fun t => c12_py_Rt t s) (c12_item_types it) /\ c12_py_Rfs (c12_item_fields it) s /\
+  incl (c12_py_item_tvs it) (py_type_variables s).
+Lemma c12_py_Ri_up it s s' : c12_py_Ri it s -> c12_ple s s' -> c12_py_Ri it s'.
+Proof.
+  intros (A & B & C) L. split; [|split].
+  - eapply Forall_impl; [|exact A]. cbn. intros t Ht. eapply c12_py_Rt_up; eauto.
+  - eapply c12_py_Rfs_up; eauto.
+  - eapply incl_tran; [exact C|exact (c12_ple_tv _ _ L)].
+Qed.
+
+(* a unit enum is written only when every variant is a unit variant (python.rs:368 panics otherwise) *)
+Lemma c12_py_unit_variants vs : forall s r s',
+  mmapM (py_unit_variant_of uc) vs s = Ok (r, s') ->
+  s' = s /\ Forall (fun v => match v with VUnit _ => True | _ => False end) vs.
+Proof.
+  induction vs as [|v vs IH]; intros s r s' H; cbn [mmapM] in H.
+  - c12_ret H. split; [reflexivity|constructor].
+  - apply mbind_ok in H as (y & s1 & Ey & H). apply mbind_ok in H as (ys & s2 & Es & H). c12_ret H.
+    unfold py_unit_variant_of in Ey. destruct v; try discriminate Ey. c12_ret Ey.
+    destruct (IH _ _ _ Es) as [-> F]. split; [reflexivity|constructor; [exact Logic.I|exact F]].
+Qed.
+
+(* the types of an enum's variants: tuple payloads, and the field types of struct variants *)
+Lemma c12_py_variants_Rt vs s :
+  Forall (fun v => c12_py_Rv v s) vs -> c12_py_Rfs (c12_anon_fields vs) s ->
+  Forall (fun t => c12_py_Rt t s) (flat_map c12_variant_types vs).
+Proof.
+  unfold c12_anon_fields, c12_py_Rfs. induction 1 as [|v vs Hv Hvs IH]; cbn [flat_map]; [constructor|].
+  intros HR. apply Forall_app in HR as [HR1 HR2]. apply Forall_app. split; [|exact (IH HR2)].
+  destruct v as [vsh|t vsh|fs vsh]; cbn [c12_variant_types]; [constructor|constructor; [exact Hv|constructor]|].
+  rewrite Forall_map. eapply Forall_impl; [|exact HR1]. cbn. intros f Hf. exact (proj1 Hf).
+Qed.
 
 Lemma c12_py_decl_flag it :
   c12_py_item_ok it ->
-  forall s ds s', py_decl_of uc cfg it s = Ok (ds, s') -> c12_ple s s' /\ c12_py_Qds ds s'.
+  forall s ds s', py_decl_of uc cfg it s = Ok (ds, s') -> c12_ple s s' /\ c12_py_Qds ds s' /\ c12_py_Ri it s'.
 Proof.
-  intros [Hid Hg] s ds s' H. destruct it as [rs|e|a|c]; cbn [py_decl_of] in H.
+  intros (Hid & Hg & Hall) s ds s' H. destruct it as [rs|e|a|c]; cbn [py_decl_of] in H.
   - apply mbind_ok in H as (d & s1 & E & H). c12_ret H.
-    apply c12_py_class_flag in E as [L Q]; [split; [exact L|constructor; [exact Q|constructor]]|].
-    unfold c12_py_fields_ok. cbn [c12_item_types] in Hid. rewrite Forall_map in Hid. exact Hid.
+    apply c12_py_class_flag in E as (L & Q & R & T).
+    + split; [exact L|]. split; [constructor; [exact Q|constructor]|].
+      split; [|split; [exact R|exact T]]. cbn [c12_item_types]. rewrite Forall_map.
+      eapply Forall_impl; [|exact R]. cbn. intros f Hf. exact (proj1 Hf).
+    + split; [|exact Hall]. cbn [c12_item_types] in Hid. rewrite Forall_map in Hid. exact Hid.
   - cbn [c12_item_types] in Hid. apply c12_variant_types_Forall2 in Hid.
-    apply mbind_ok in H as (inners & s1 & Ei & H). apply c12_py_inner_flag in Ei as [L1 Q1]; [|exact Hid].
+    apply mbind_ok in H as (inners & s1 & Ei & H). apply c12_py_inner_flag in Ei as (L1 & Q1 & R1); [|exact Hid|exact Hall].
     destruct e as [sh|tag content sh]; cbn [enum_shared] in *.
     + apply mbind_ok in H as (u2 & s2 & E2 & H). apply c12_py_add_import_spec in E2 as [L2 I2].
       apply mbind_ok in H as (vs & s3 & E3 & H). c12_ret H.
-      assert (L3 : c12_ple s2 s3).
-      { eapply (c12_mmapM_le c12_ple c12_ple_refl c12_ple_trans); [|exact E3]. apply Forall_forall. intros v _ s0 y s0' E0.
-        unfold py_unit_variant_of in E0. destruct v; try discriminate E0. c12_ret E0. apply c12_ple_refl. }
-      split; [eapply c12_ple_trans; [exact L1|eapply c12_ple_trans; eauto]|]. unfold c12_py_Qds. apply Forall_app. split.
-      * apply (c12_py_Qds_up _ _ _ Q1). eapply c12_ple_trans; eauto.
-      * constructor; [|constructor]. intros u0 [<-|[]]. right. right. right. eapply c12_py_imp_up; eauto.
+      apply c12_py_unit_variants in E3 as [-> U3].
+      assert (M1 : c12_ple s1 s2) by exact L2.
+      split; [eapply c12_ple_trans; eauto|]. split.
+      * unfold c12_py_Qds. apply Forall_app. split.
+        -- exact (c12_py_Qds_up _ _ _ Q1 L2).
+        -- constructor; [|constructor]. intros u0 [<-|[]]. right. right. right. exact I2.
+      * split; [|split; [exact (c12_py_Rfs_up _ _ _ R1 L2)|intros g []]].
+        cbn [c12_item_types enum_shared]. apply c12_py_variants_Rt; [|exact (c12_py_Rfs_up _ _ _ R1 L2)].
+        eapply Forall_impl; [|exact U3]. cbn. intros v Hv. destruct v; [exact Logic.I|contradiction|exact Logic.I].
     + apply mbind_ok in H as (d & s2 & E2 & H). c12_ret H.
-      apply c12_py_algebraic_flag in E2 as [L2 Q2]; [|exact Hid].
-      split; [eapply c12_ple_trans; eauto|]. unfold c12_py_Qds. apply Forall_app. split.
-      * exact (c12_py_Qds_up _ _ _ Q1 L2).
-      * constructor; [exact Q2|constructor].
+      apply c12_py_algebraic_flag in E2 as (L2 & Q2 & R2 & T2); [|exact Hid].
+      split; [eapply c12_ple_trans; eauto|]. split.
+      * unfold c12_py_Qds. apply Forall_app. split; [exact (c12_py_Qds_up _ _ _ Q1 L2)|constructor; [exact Q2|constructor]].
+      * split; [|split; [exact (c12_py_Rfs_up _ _ _ R1 L2)|exact T2]].
+        cbn [c12_item_types enum_shared]. apply c12_py_variants_Rt; [exact R2|exact (c12_py_Rfs_up _ _ _ R1 L2)].
   - apply mbind_ok in H as (ty & s1 & E & H). c12_ret H.
     cbn [c12_item_types] in Hid. apply Forall_cons_iff in Hid as [Ht _].
-    destruct (c12_py_texp_imports _ _ Ht _ _ _ E) as [L Q]. split; [exact L|]. constructor; [|constructor].
-    intros u0 Hu. cbn [c12_py_decl_uses] in Hu. apply in_app_iff in Hu as [Hu|Hu]; [left; apply Hg, Hu|].
-    exact (c12_py_tuses_ok _ _ Q u0 Hu).
+    destruct (c12_py_texp_imports _ _ Ht _ _ _ E) as [L Q]. pose proof (c12_py_texp_registers _ _ Ht _ _ _ E) as R.
+    split; [exact L|]. split.
+    + constructor; [|constructor].
+      intros u0 Hu. cbn [c12_py_decl_uses] in Hu. apply in_app_iff in Hu as [Hu|Hu]; [left; apply Hg, Hu|].
+      exact (c12_py_tuses_ok _ _ Q u0 Hu).
+    + split; [constructor; [exact R|constructor]|split; [constructor|intros g []]].
   - apply mbind_ok in H as (ty & s1 & E & H). c12_ret H.
     cbn [c12_item_types] in Hid. apply Forall_cons_iff in Hid as [Ht _].
-    destruct (c12_py_texp_imports _ _ Ht _ _ _ E) as [L Q]. split; [exact L|]. constructor; [|constructor].
-    intros u0 Hu. cbn [c12_py_decl_uses] in Hu. exact (c12_py_tuses_ok _ _ Q u0 Hu).
+    destruct (c12_py_texp_imports _ _ Ht _ _ _ E) as [L Q]. pose proof (c12_py_texp_registers _ _ Ht _ _ _ E) as R.
+    split; [exact L|]. split.
+    + constructor; [|constructor]. intros u0 Hu. cbn [c12_py_decl_uses] in Hu. exact (c12_py_tuses_ok _ _ Q u0 Hu).
+    + split; [constructor; [exact R|constructor]|split; [constructor|intros g []]].
 Qed.
 
 Lemma c12_py_items_flag items :
   Forall c12_py_item_ok items ->
   forall s dss s', mmapM (py_decl_of uc cfg) items s = Ok (dss, s') ->
-    forall u, In u (flat_map (c12_py_decl_uses tvs) (List.concat dss)) -> c12_py_ok u s'.
+    c12_ple s s' /\
+    (forall u, In u (flat_map (c12_py_decl_uses tvs) (List.concat dss)) -> c12_py_ok u s') /\
+    Forall (fun it => c12_py_Ri it s') items.
 Proof.
-  intros Hid s dss s' H u Hu.
-  apply (c12_mmapM_mono c12_ple c12_ple_refl c12_ple_trans _ c12_py_Qds _ c12_py_Qds_up) in H as [_ Q].
-  - apply in_flat_map in Hu as (d & Hd & Hu). apply in_concat in Hd as (l & Hl & Hd).
+  intros Hid s dss s' H.
+  apply (c12_mmapM_mono2 c12_ple c12_ple_refl c12_ple_trans _ c12_py_Qds c12_py_Ri _ c12_py_Qds_up c12_py_Ri_up) in H as (L & Q & R).
+  - split; [exact L|]. split; [|exact R]. intros u Hu.
+    apply in_flat_map in Hu as (d & Hd & Hu). apply in_concat in Hd as (l & Hl & Hd).
     rewrite Forall_forall in Q. specialize (Q l Hl). unfold c12_py_Qds in Q. rewrite Forall_forall in Q. exact (Q d Hd u Hu).
   - eapply Forall_impl; [|exact Hid]. cbn. intros it Hit. apply c12_py_decl_flag. exact Hit.
 Qed.
 End PY.
 
-(* PARTIAL theorem for the file: every name the declarations of the body use is a generic parameter
-   name of the program, one of the four (de)serialiser function names, or is defined / imported by
-   the header.  Missing for the full property: that generic parameter names have their TypeVar (true
-   outside C12-python-alias-typevar), that the function names are defined (true outside
-   C12-python-default-translation), and the header's own uses (TypeVar, datetime). *)
+(* ---- the file ---- *)
+Lemma c12_py_items_ok cfg pd items :
+  Permutation items (items_of pd) -> c12_py_dom cfg (items_of pd) = true ->
+  Forall (c12_py_item_ok (c12_py_tv_vocab (items_of pd)) (flat_map c12_item_fields (items_of pd))) items.
+Proof.
+  intros Et Hdom. unfold c12_py_dom in Hdom. apply andb_true_iff in Hdom as [Hids _].
+  apply Forall_forall. intros it Hit. assert (Hit' : In it (items_of pd)) by (eapply Permutation_in; eauto).
+  destruct (c12_ids_avoid_spec _ _ _ Hids it Hit') as [Hi _]. split; [|split].
+  - apply Forall_forall. intros t Ht. apply Forall_forall. intros id Hid. apply (Hi id).
+    unfold c12_item_ids. apply in_flat_map. eauto.
+  - destruct it as [| |a|]; auto. intros g Hg. unfold c12_py_tv_vocab. apply in_flat_map. exists (ItAlias a). auto.
+  - intros f Hf. apply in_flat_map. eauto.
+Qed.
+
+(* PARTIAL theorem for the file (kept; superseded by c12_py_file below): every name the declarations of
+   the body use is a generic parameter name of the program, one of the four (de)serialiser function
+   names, or is defined / imported by the header. *)
 Theorem c12_py_file_partial uc cfg pd ds st :
   py_decls uc cfg pd = Ok (ds, st) -> c12_py_dom cfg (items_of pd) = true ->
   forall u, In u (flat_map (c12_py_decl_uses (c12_py_tv_vocab (items_of pd))) ds) ->
@@ -450,14 +812,118 @@ Proof.
   apply c12_topsort_perm in Et.
   destruct (mmapM (py_decl_of uc cfg) items py_empty_state) as [[dss st']| |] eqn:E; try discriminate H.
   injection H as <- <-.
-  unfold c12_py_dom in Hdom. apply andb_true_iff in Hdom as [Hids _].
-  assert (Hok : Forall (c12_py_item_ok (c12_py_tv_vocab (items_of pd))) items).
-  { apply Forall_forall. intros it Hit. assert (Hit' : In it (items_of pd)) by (eapply Permutation_in; eauto).
-    destruct (c12_ids_avoid_spec _ _ _ Hids it Hit') as [Hi _]. split.
-    - apply Forall_forall. intros t Ht. apply Forall_forall. intros id Hid. apply (Hi id).
-      unfold c12_item_ids. apply in_flat_map. eauto.
-    - destruct it as [| |a|]; auto. intros g Hg. unfold c12_py_tv_vocab. apply in_flat_map. exists (ItAlias a). auto. }
-  destruct (c12_py_items_flag uc cfg _ _ Hok _ _ _ E u Hu) as [A|[A|[A|A]]]; auto.
+  pose proof (c12_py_items_ok cfg pd items Et Hdom) as Hok.
+  destruct (c12_py_items_flag uc cfg _ _ _ Hok _ _ _ E) as (_ & Q & _).
+  destruct (Q u Hu) as [A|[A|[A|A]]]; auto.
+  - right. left. eapply c12_py_fnok_names; eauto.
   - right. right. unfold c12_py_defs. apply in_app_iff. now left.
   - right. right. unfold c12_py_defs. rewrite !in_app_iff. right. right. exact A.
+Qed.
+
+(* ---- the three missing halves, then the whole file ---- *)
+Lemma c12_existsb_false {A} (f : A -> bool) l : existsb f l = false -> forall x, In x l -> f x = false.
+Proof.
+  intros H x Hx. destruct (f x) eqn:E; [|reflexivity]. rewrite <- H. symmetry. apply existsb_exists. eauto.
+Qed.
+
+Lemma c12_tmap_get_in (m : tmap) k v : tmap_get m k = Some v -> In v (map snd m).
+Proof.
+  induction m as [|[a b] r IH]; cbn [tmap_get map snd]; [discriminate|].
+  destruct (str_eqb a k); [intros [= <-]; now left|intros H; right; auto].
+Qed.
+
+(* dom: no type_mappings value is the text `datetime` *)
+Lemma c12_py_dom_no_dt cfg items : c12_py_dom cfg items = true -> ~ c12_py_maps_dt cfg.
+Proof.
+  unfold c12_py_dom. intros H [k Hk]. apply andb_true_iff in H as [_ H]. rewrite forallb_forall in H.
+  apply c12_tmap_get_in in Hk. apply in_map_iff in Hk as (kv & Ekv & Hkv). specialize (H kv Hkv).
+  rewrite Ekv, str_eqb_refl in H. discriminate H.
+Qed.
+
+(* (a) outside C12-python-alias-typevar every generic parameter name of the program has its TypeVar *)
+Lemma c12_py_tv_declared_in items u :
+  In u (c12_py_tv_declared items) -> exists it, In it items /\ In u (c12_py_item_tvs it).
+Proof. unfold c12_py_tv_declared. intros H. apply in_flat_map in H as (it & Hit & Hu). exists it. split; [exact Hit|exact Hu]. Qed.
+
+Lemma c12_py_vocab_declared items :
+  c12_py_alias_typevar items = false -> incl (c12_py_tv_vocab items) (c12_py_tv_declared items).
+Proof.
+  intros Ha u Hu. unfold c12_py_tv_vocab in Hu. apply in_flat_map in Hu as (it & Hit & Hu).
+  unfold c12_py_alias_typevar in Ha. pose proof (c12_existsb_false _ _ Ha it Hit) as Hn.
+  destruct it as [s|e|a|c].
+  - unfold c12_py_tv_declared. apply in_flat_map. exists (ItStruct s). auto.
+  - unfold c12_py_tv_declared. apply in_flat_map. exists (ItEnum e). auto.
+  - pose proof (c12_existsb_false _ _ Hn u Hu) as Hg. apply negb_false_iff in Hg. apply c12_mem_str_In. exact Hg.
+  - destruct Hu.
+Qed.
+
+(* (b) the functions of the translation set are the ones the header writes *)
+Lemma c12_py_fns_in st p ct u :
+  In p (py_custom_types st) -> py_json_translation_for_type p = Some ct ->
+  u = py_de_name ct \/ u = py_ser_name ct -> In u (c12_py_fns st).
+Proof.
+  intros Hp E Hu. unfold c12_py_fns, py_translations_defined. apply in_flat_map. exists ct. split.
+  - apply in_flat_map. exists p. split; [exact Hp|]. rewrite E. now left.
+  - destruct Hu as [->| ->]; cbn; auto.
+Qed.
+
+(* (c) the datetime helper functions are written only for the text `datetime` *)
+Lemma c12_py_rfc_dt st : In (lit "parse_rfc3339") (c12_py_fns st) -> In (lit "datetime") (py_custom_types st).
+Proof.
+  unfold c12_py_fns, py_translations_defined. intros H. apply in_flat_map in H as (ct & Hct & Hu).
+  apply in_flat_map in Hct as (p & Hp & Hct). unfold py_json_translation_for_type in Hct.
+  destruct (str_eqb p (lit "bytes")) eqn:Eb.
+  - destruct Hct as [<-|[]]. exfalso. vm_compute in Hu. destruct Hu as [Hu|[Hu|[]]]; discriminate Hu.
+  - destruct (str_eqb p (lit "datetime")) eqn:Ed; [|destruct Hct]. apply str_eqb_eq in Ed. subst p. exact Hp.
+Qed.
+
+Theorem c12_py_file uc cfg pd ds st :
+  py_decls uc cfg pd = Ok (ds, st) -> c12_py_dom cfg (items_of pd) = true -> c12_py_known cfg pd = None ->
+  forall u, In u (c12_py_uses (c12_py_tv_vocab (items_of pd)) ds (py_type_variables st) (c12_py_fns st)) ->
+    In u (c12_py_defs (py_type_variables st) (c12_py_fns st) (c12_py_imported st)).
+Proof.
+  unfold py_decls. intros H Hdom Hk u Hu. apply c12_bind_ok in H as (items & Et & H).
+  apply c12_topsort_perm in Et.
+  destruct (mmapM (py_decl_of uc cfg) items py_empty_state) as [[dss st']| |] eqn:E; try discriminate H.
+  injection H as <- <-.
+  pose proof (c12_py_items_ok cfg pd items Et Hdom) as Hok.
+  destruct (c12_py_items_flag uc cfg _ _ _ Hok _ _ _ E) as (L & Q & R).
+  pose proof (c12_py_dom_no_dt _ _ Hdom) as Hnodt.
+  (* the two classes are excluded *)
+  unfold c12_py_known in Hk.
+  destruct (c12_py_alias_typevar (items_of pd)) eqn:Ka; [discriminate Hk|].
+  destruct (c12_py_default_translation (py_type_mappings cfg) (items_of pd)) eqn:Kd; [discriminate Hk|]. clear Hk.
+  rewrite Forall_forall in R.
+  assert (Rin : forall it, In it (items_of pd) -> c12_py_Ri cfg it st').
+  { intros it Hit. apply R. eapply Permutation_in; [apply Permutation_sym; exact Et|exact Hit]. }
+  (* (a) *)
+  assert (Ha : forall g, In g (c12_py_tv_vocab (items_of pd)) -> In g (py_type_variables st')).
+  { intros g Hg. apply (c12_py_vocab_declared _ Ka) in Hg. apply c12_py_tv_declared_in in Hg as (it & Hit & Hg).
+    destruct (Rin it Hit) as (_ & _ & T). exact (T g Hg). }
+  (* (b) *)
+  assert (Hb : forall f p, In f (flat_map c12_item_fields (items_of pd)) -> c12_py_wrapped f = true ->
+                           c12_py_custom (py_type_mappings cfg) (fty f) = Some p -> In p (py_custom_types st')).
+  { intros f p Hf Hw Hp. unfold c12_py_default_translation in Kd. pose proof (c12_existsb_false _ _ Kd f Hf) as Kf.
+    cbv beta in Kf. rewrite Hw, Hp in Kf. cbn [andb] in Kf. apply negb_false_iff in Kf. apply orb_true_iff in Kf as [Kf|Kf].
+    - apply existsb_exists in Kf as (g & Hg & Kg). apply andb_true_iff in Kg as [Wg Cg]. apply negb_true_iff in Wg.
+      destruct (c12_py_custom (py_type_mappings cfg) (fty g)) as [q|] eqn:Eq; [|discriminate Cg].
+      apply str_eqb_eq in Cg. subst q.
+      apply in_flat_map in Hg as (it & Hit & Hg). destruct (Rin it Hit) as (_ & RF & _).
+      unfold c12_py_Rfs in RF. rewrite Forall_forall in RF. exact (proj2 (RF g Hg) Wg p Eq).
+    - apply c12_mem_str_In in Kf. apply in_flat_map in Kf as (t & Ht & Kf). apply in_flat_map in Ht as (it & Hit & Ht).
+      destruct (Rin it Hit) as (RT & _ & _). rewrite Forall_forall in RT. exact (RT t Ht p Kf). }
+  unfold c12_py_uses in Hu. unfold c12_py_defs. rewrite !in_app_iff. apply in_app_iff in Hu as [Hu|Hu].
+  - (* (c) the header's own uses *)
+    unfold c12_py_header_uses in Hu. apply in_app_iff in Hu as [Hu|Hu].
+    + destruct (py_type_variables st') as [|g gs] eqn:Eg; [destruct Hu|]. destruct Hu as [<-|[]].
+      destruct L as (_ & _ & _ & L4 & _). destruct (L4 g) as [K|K]; [rewrite Eg; now left|destruct K|].
+      right. right. exact K.
+    + destruct (mem_str (lit "parse_rfc3339") (c12_py_fns st')) eqn:Em; [|destruct Hu]. destruct Hu as [<-|[]].
+      apply c12_mem_str_In, c12_py_rfc_dt in Em.
+      destruct L as (_ & _ & _ & _ & L5). destruct (L5 Em) as [K|[K|K]]; [destruct K| |contradiction].
+      right. right. exact K.
+  - destruct (Q u Hu) as [A|[A|[A|A]]]; auto.
+    destruct A as (p & ct & Ect & Hname & [Hp|(f & Hf & Hw & Hp)]).
+    + right. left. eapply c12_py_fns_in; eauto.
+    + right. left. eapply c12_py_fns_in; eauto.
 Qed.
